@@ -430,6 +430,11 @@ def run(ctx):
     notes = ["one op = one whole stream through one PublishIPFIXMessages call; %d payloads over %d messages compared byte for byte" % (
         dist.get("payloads", 0), dist.get("messages", 0)),
         "Generated/Proto.lean regenerated by tools/protofacts at import of gen/c19.py" + (" FAILED: " + FACTS_ERROR if FACTS_ERROR else "")]
+    ref = os.path.join(ROOT, "tools", "protofacts", "reference", "Proto.lean")
+    if not FACTS_ERROR and os.path.exists(ref) and os.path.exists(PROTO_LEAN):
+        same = open(ref).read() == open(PROTO_LEAN).read()
+        notes.append("reference facts (used only to go on searching when protofacts refuses a tree) are %s the regenerated ones" % (
+            "identical to" if same else "DIFFERENT from"))
     if os.environ.get("VERIF_MUTANT_OVERLAY"):
         notes.append("VERIF_MUTANT_OVERLAY in effect: " + ",".join(sorted(json.loads(os.environ["VERIF_MUTANT_OVERLAY"]))))
     return {"evaluations": total, "distinct_nontrivial": len(seen), "samples": samples, "distribution": dict(dist),
